@@ -86,6 +86,10 @@ def main(argv):
         ok = "is violated" in out
         failures += 0 if ok else 1
         print("   Ring with `end + 1 > maxSize` wrap-around: %s" % ("rejected, ok" if ok else "NOT REJECTED"))
+        out = run.tlc("DLLIter.tla", "MCDLLIter_f10.cfg", workers=2)
+        ok = "is violated" in out
+        failures += 0 if ok else 1
+        print("   DLLIter with Repaired = FALSE (the linked-list iterator before fix F10, kept across list operations): %s" % ("rejected, ok" if ok else "NOT REJECTED"))
         if "--seeds" in argv:
             ids = [a for a in argv if not a.startswith("--")] or sorted(os.listdir(os.path.join(ROOT, "seeded")))
             print("== 3. seeded changes")
